@@ -240,8 +240,8 @@ func c16Escapes(c *fw.Case) {
 func init() {
 	const parts = 14
 	fw.Register(&fw.Check{ID: "C16", Level: "exploration", Exhaustive: true,
-		Technique: "runtime monitoring of the pure path helpers, exhaustive small scope: every path of depth <= 2 over 1302 elements (6 names x 0..2 keys from 3 key names x 8 values of the accepted alphabet) + PRNG depth 3; round trip, injectivity (hash map over all textual forms of a part), split boundaries vs an independent scanner, parent; escape-worthy characters: helpers and Set handler must refuse or preserve",
-		Rule:      "cases 0..13 partition the depth-2 space by first element (each also 20000 PRNG depth-3 paths); case 14 = 600 PRNG paths with escape-worthy key values through the helpers + 150 Sets whose keys carry them; distinct_nontrivial = parts executed (each part holds > 10^5 distinct textual forms, reported in counters)",
+		Technique:   "runtime monitoring of the pure path helpers, exhaustive small scope: every path of depth <= 2 over 1302 elements (6 names x 0..2 keys from 3 key names x 8 values of the accepted alphabet) + PRNG depth 3; round trip, injectivity (hash map over all textual forms of a part), split boundaries vs an independent scanner, parent; escape-worthy characters: helpers and Set handler must refuse or preserve",
+		Rule:        "cases 0..13 partition the depth-2 space by first element (each also 20000 PRNG depth-3 paths); case 14 = 600 PRNG paths with escape-worthy key values through the helpers + 150 Sets whose keys carry them; distinct_nontrivial = parts executed (each part holds > 10^5 distinct textual forms, reported in counters)",
 		Assumptions: []string{"accepted alphabet for key values = IndexAllowedChars; names are YANG identifiers optionally module-prefixed", "end-to-end path identity (client -> store -> device -> Get) is additionally exercised by the S2 oracles of C03/C04, which compare element-wise"},
 		Floors:      map[string]int64{"paths": 1500000, "distinct_textual_forms": 1500000, "escape_paths": 500, "escape_sets": 100},
 		Cases:       func(tier string) int { return parts + 1 },
@@ -478,8 +478,8 @@ func c18Run(c *fw.Case, part, parts int) {
 func init() {
 	const parts = 10
 	fw.Register(&fw.Check{ID: "C18", Level: "exploration", Exhaustive: true,
-		Technique: "runtime monitoring of the pure tree helpers (v2 and v3), exhaustive small scope: every set of <= 4 entries from a 20-path universe (nested and two-key lists, numeric / boolean-looking keys, keys that are prefixes of each other, sibling names sharing prefixes, explicit key leaf) in every value / tombstone state; BuildTree document flattened by an independent schema-driven flattener == live leaves; PrunePathValues in both modes == reference",
-		Rule:      "cases partition the subsets by smallest element; each case adds 300 PRNG sets of ~10 entries; distinct_nontrivial = parts executed",
+		Technique:   "runtime monitoring of the pure tree helpers (v2 and v3), exhaustive small scope: every set of <= 4 entries from a 20-path universe (nested and two-key lists, numeric / boolean-looking keys, keys that are prefixes of each other, sibling names sharing prefixes, explicit key leaf) in every value / tombstone state; BuildTree document flattened by an independent schema-driven flattener == live leaves; PrunePathValues in both modes == reference",
+		Rule:        "cases partition the subsets by smallest element; each case adds 300 PRNG sets of ~10 entries; distinct_nontrivial = parts executed",
 		Assumptions: []string{"a key leaf that a document shows only because it identifies its entry is implied, not an extra leaf; an explicit key leaf must agree with its entry"},
 		DistinctSet: "part",
 		Floors:      map[string]int64{"sets": 30000, "large_sets": 2500},
